@@ -18,7 +18,7 @@ import ast
 import re
 
 from ..cfg import DataFlow
-from ..model import AnalysisError, call_name, dotted, last_attr, norm_text, walk_no_nested
+from ..model import AnalysisError, call_name, dotted, kw, last_attr, norm_text, walk_no_nested
 from ..rules.absint import PathInterp
 from ..rules.shapes import NONE, SCALAR, UNKNOWN, Arr, DictV, IntV, ShapeDomain, Tup, dim, shape_text
 from ..rules.versioned import CanonNormalizer
@@ -456,3 +456,1121 @@ def run(ctx) -> None:  # noqa: F811
                           "offset of the previous position" if bad else "", key_detail="reshift")
     ctx.require(n >= 2, f"R-RESHIFT found only {n} position-difference shifts")
     _inner_run_c28(ctx)
+
+
+# ======================================================================================================================
+# rules added after the mutation sweep (tools/mutation_sweep.py C28): window geometry, sub-pixel bookkeeping of the
+# probe, argument roles of the window helper
+# ======================================================================================================================
+_inner_run_c28_sweep1 = run
+
+WINDOW_FN = "_wrapped_indices_2D_window"
+ROUNDERS = {"round", "around", "rint", "round_"}
+_VALUE_PRESERVING = {"asnumpy", "asarray", "array", "asanyarray", "ascontiguousarray", "copy_to_device"}
+_OVERLAP_NAMES = ("_overlap_projection", "_warmup_overlap_projection", "_alternative_overlap_projection")
+
+
+def _short_callee(call: ast.Call) -> str:
+    return (call_name(call) or "").split(".")[-1]
+
+
+def _peel(expr: ast.AST) -> tuple[ast.AST, list[str]]:
+    """Strip value-preserving wrappers and integer casts; returns (core expression, names of rounding calls met)."""
+    rounders: list[str] = []
+    while True:
+        if isinstance(expr, ast.Call) and isinstance(expr.func, ast.Attribute) and expr.func.attr in ("astype", "get") \
+                and not isinstance(expr.func.value, ast.Name):
+            expr = expr.func.value
+        elif isinstance(expr, ast.Call) and isinstance(expr.func, ast.Attribute) and expr.func.attr == "astype":
+            expr = expr.func.value
+        elif isinstance(expr, ast.Call) and _short_callee(expr) in _VALUE_PRESERVING and expr.args:
+            expr = expr.args[0]
+        elif isinstance(expr, ast.Call) and _short_callee(expr) in ROUNDERS and len(expr.args) == 1 and not expr.keywords:
+            rounders.append(_short_callee(expr))
+            expr = expr.args[0]
+        else:
+            return expr, rounders
+
+
+class _WindowEval:
+    """Evaluates the integer arithmetic of the window helper for concrete window / array extents and centres.
+
+    Leaves are the components of the three parameters (by tuple unpacking or constant subscript); everything else is
+    followed through single reaching definitions.  Code outside + - * // % on such leaves is an AnalysisError."""
+
+    def __init__(self, f, df):
+        self.f, self.df = f, df
+        self.center, self.window, self.array = f.positional_params[:3]
+        self.center_rounders: set[str] = set()
+        self.center_unrounded = False
+
+    def _component(self, root: ast.AST, k: int, env: dict):
+        core, rounders = _peel(root)
+        if not isinstance(core, ast.Name) or core.id not in (self.center, self.window, self.array):
+            raise AnalysisError(f"{self.f.qualname}: component {k} of `{norm_text(root)[:50]}` is not a component of a "
+                                "parameter")
+        d = self.df.reaching(self.df.cfg.entry, core.id)
+        if core.id == self.center:
+            if rounders:
+                self.center_rounders |= set(rounders)
+            else:
+                self.center_unrounded = True
+        elif rounders:
+            raise AnalysisError(f"{self.f.qualname}: a shape is rounded")
+        return env[(core.id, k)]
+
+    def ev(self, e: ast.AST, at: int, env: dict, depth: int = 0):
+        if depth > 24:
+            raise AnalysisError(f"{self.f.qualname}: definition chain too deep")
+        if isinstance(e, ast.Constant) and isinstance(e.value, int) and not isinstance(e.value, bool):
+            return e.value
+        if isinstance(e, ast.UnaryOp) and isinstance(e.op, (ast.USub, ast.UAdd)):
+            v = self.ev(e.operand, at, env, depth + 1)
+            return -v if isinstance(e.op, ast.USub) else v
+        if isinstance(e, ast.BinOp) and isinstance(e.op, (ast.Add, ast.Sub, ast.Mult, ast.FloorDiv, ast.Mod)):
+            a, b = self.ev(e.left, at, env, depth + 1), self.ev(e.right, at, env, depth + 1)
+            if isinstance(e.op, ast.Add):
+                return a + b
+            if isinstance(e.op, ast.Sub):
+                return a - b
+            if isinstance(e.op, ast.Mult):
+                return a * b
+            if b == 0:
+                raise AnalysisError(f"{self.f.qualname}: division by zero in the window arithmetic")
+            return a // b if isinstance(e.op, ast.FloorDiv) else a % b
+        if isinstance(e, ast.Call) and _short_callee(e) == "int" and len(e.args) == 1:
+            return self.ev(e.args[0], at, env, depth + 1)
+        if isinstance(e, ast.Subscript) and isinstance(e.slice, ast.Constant) and e.slice.value in (0, 1) \
+                and not isinstance(e.slice.value, bool):
+            return self._component(self._resolve_root(e.value, at), e.slice.value, env)
+        if isinstance(e, ast.Name):
+            d = self.df.single_def(at, e.id)
+            if d is None or d.kind != "assign" or d.value is None:
+                raise AnalysisError(f"{self.f.qualname}: `{e.id}` has no single defining assignment")
+            st = self.df.cfg.nodes[d.node].ast
+            if isinstance(st, ast.Assign) and d.value is st.value and isinstance(st.targets[0], (ast.Tuple, ast.List)):
+                names = [t.id if isinstance(t, ast.Name) else None for t in st.targets[0].elts]
+                if len(names) != 2 or e.id not in names:
+                    raise AnalysisError(f"{self.f.qualname}: cannot read the unpacking `{norm_text(st)[:60]}`")
+                return self._component(self._resolve_root(d.value, d.node), names.index(e.id), env)
+            return self.ev(d.value, d.node, env, depth + 1)
+        raise AnalysisError(f"{self.f.qualname}: `{norm_text(e)[:60]}` is outside the window arithmetic")
+
+    def _resolve_root(self, e: ast.AST, at: int) -> ast.AST:
+        """Follow plain temporaries of a whole (2-component) value down to an expression over a parameter."""
+        hops = 0
+        while True:
+            core, _ = _peel(e)
+            if isinstance(core, ast.Name) and core.id not in (self.center, self.window, self.array) and hops < 8:
+                d = self.df.single_def(at, core.id)
+                if d is None or d.kind != "assign" or d.value is None:
+                    return e
+                # re-wrap: the peeled wrappers of `e` are value preserving or roundings; keep the roundings
+                _, rounders = _peel(e)
+                inner = d.value
+                for r in rounders:
+                    inner = ast.Call(func=ast.Name(id=r, ctx=ast.Load()), args=[inner], keywords=[])
+                e, at = inner, d.node
+                hops += 1
+                continue
+            return e
+
+    def resolve_expr(self, e: ast.AST, at: int) -> tuple[ast.AST, int]:
+        hops = 0
+        while isinstance(e, ast.Name) and hops < 8:
+            d = self.df.single_def(at, e.id)
+            if d is None or d.kind != "assign" or d.value is None:
+                break
+            st = self.df.cfg.nodes[d.node].ast
+            if isinstance(st, ast.Assign) and d.value is st.value and isinstance(st.targets[0], (ast.Tuple, ast.List)):
+                break
+            e, at = d.value, d.node
+            hops += 1
+        return e, at
+
+
+_WINDOW_ENVS = [  # (window extents, array extents, centres)
+    ((5, 8), (31, 47), (100, 200)),
+    ((4, 7), (29, 53), (3, 11)),
+    ((1, 2), (17, 19), (40, 9)),
+    ((6, 3), (23, 13), (-7, 64)),
+    ((9, 10), (37, 41), (0, 1)),
+]
+
+
+def _window(ctx, repo) -> set:
+    """R-WINDOW; returns the set of rounding functions that place the window."""
+    f = repo.function(MOD, WINDOW_FN)
+    ctx.require(len(f.positional_params) == 3, f"{f.qualname}: signature changed")
+    df = DataFlow(f.node)
+    rets = [n for n in walk_no_nested(f.node) if isinstance(n, ast.Return) and n.value is not None]
+    ctx.require(len(rets) == 1, f"{f.qualname}: expected one return")
+    we = _WindowEval(f, df)
+    rnode = df.cfg.node_of(rets[0]).idx
+    grid, gat = we.resolve_expr(rets[0].value, rnode)
+    ctx.require(isinstance(grid, ast.Call) and _short_callee(grid) == "ix_" and len(grid.args) == 2,
+                f"{f.qualname}: the result is not an open mesh np.ix_(rows, columns)")
+    for k, arg in enumerate(grid.args):
+        a, aat = we.resolve_expr(arg, gat)
+        ctx.require(isinstance(a, ast.BinOp) and isinstance(a.op, ast.Mod),
+                    f"{f.qualname}: index vector {k} is not wrapped with a modulus")
+        rng, rat = we.resolve_expr(a.left, aat)
+        ctx.require(isinstance(rng, ast.Call) and _short_callee(rng) == "arange" and len(rng.args) == 2
+                    and not rng.keywords, f"{f.qualname}: index vector {k} is not arange(lo, hi) % extent")
+        problems = []
+        for win, arr, cen in _WINDOW_ENVS:
+            env = {}
+            for name, vals in ((we.window, win), (we.array, arr), (we.center, cen)):
+                env[(name, 0)], env[(name, 1)] = vals
+            lo, hi = we.ev(rng.args[0], rat, env), we.ev(rng.args[1], rat, env)
+            m = we.ev(a.right, aat, env)
+            n, s, c = win[k], arr[k], cen[k]
+            if hi - lo != n:
+                problems.append(f"the window has {hi - lo} entries for a window extent of {n}")
+            elif m != s:
+                problems.append(f"indices are wrapped modulo {m} in an array of extent {s}")
+            elif c - lo not in (n // 2, (n - 1) // 2):
+                problems.append(f"a window of {n} pixels centred at pixel {c} starts at pixel {lo}: the centre is "
+                                f"{'outside the window' if not 0 <= c - lo < n else 'not in the middle of the window'}")
+            if problems:
+                break
+        ctx.check(not problems, "R-WINDOW", f"{f.qualname}:axis {k}", f.loc(rets[0]),
+                  f"arange(lo, hi) % extent: hi - lo is the window extent, the rounded centre sits in the middle and the "
+                  f"modulus is the array extent of the same axis",
+                  (problems[0] if problems else "") + " — the exit wave is formed with the wrong part of the object: "
+                  "the true object and probe are not a fixed point of the update", key_detail=f"axis{k}")
+    if we.center_unrounded or not we.center_rounders:
+        raise AnalysisError(f"{f.qualname}: the centre position is not rounded to a pixel by a recognised function")
+    return we.center_rounders
+
+
+def _overlap_methods(repo):
+    mod = repo.modules[MOD]
+    for c in mod.classes.values():
+        for name in _OVERLAP_NAMES:
+            m = c.own_method(name)
+            if m is not None and "position" in m.positional_params and "old_position" in m.positional_params \
+                    and any(isinstance(r, ast.Return) and r.value is not None for r in walk_no_nested(m.node)):
+                yield c, m  # (the abstract operator's stub returns nothing)
+
+
+def _strip_versions(p: Poly) -> str:
+    return re.sub(r"@(?:param|L\d+)(?:\|(?:param|L\d+))*", "", p.key())
+
+
+def _one_rounding(text: str) -> str:
+    """np.round / np.around / np.round_ / np.rint all round half to even: one function under several names."""
+    return re.sub(r"\b(?:around|rint|round_)\(", "round(", text)
+
+
+def _fracshift(ctx, repo, rounders: set) -> None:
+    n = 0
+    for c, f in _overlap_methods(repo):
+        pos, old = "position", "old_position"
+        df = DataFlow(f.node)
+        for k in [k for k in walk_no_nested(f.node) if isinstance(k, ast.Call) and _short_callee(k) == "fft_shift"
+                  and len(k.args) >= 2]:
+            st = _stmt_of(f.node, k)
+            at = df.cfg.node_of(st).idx
+            sl = df.backward_slice(at, k.args[1])
+            if not ({pos, old} & sl.params):
+                continue
+            n += 1
+            _check_shift(ctx, f, df, at, k, pos, old, rounders, f"{f.qualname}:probe shift")
+    ctx.require(n >= 2, f"R-FRACSHIFT found only {n} probe shifts in the overlap projections")
+    # after the sweep over the scan positions the probe is brought back onto the pixel grid
+    m = 0
+    for cls_name in OPERATORS:
+        rec = repo.method(MOD, cls_name, "reconstruct")
+        alias = _step_aliases(repo, cls_name, rec)
+        ov = [k for k in walk_no_nested(rec.node) if isinstance(k, ast.Call)
+              and alias.get(call_name(k), call_name(k)) == "_overlap_projection"]
+        if len(ov) != 1 or len(ov[0].args) < 3 or not isinstance(ov[0].args[2], ast.Name):
+            if cls_name == ANCHOR:
+                raise AnalysisError(f"{rec.qualname}: cannot find the overlap projection call and its position argument")
+            ctx.info("R-FRACSHIFT", f"{rec.qualname}:probe back on the pixel grid", rec.where, "not analysed")
+            continue
+        posvars = {a.id for a in ov[0].args[2:4] if isinstance(a, ast.Name)}  # position / recorded old position
+        df = DataFlow(rec.node)
+        found = 0
+        for k in [k for k in ast.walk(rec.node) if isinstance(k, ast.Call) and _short_callee(k) == "fft_shift"
+                  and len(k.args) >= 2]:
+            used = posvars & {x.id for x in ast.walk(k.args[1]) if isinstance(x, ast.Name)}
+            if not used:
+                continue
+            if len(used) != 1:
+                raise AnalysisError(f"{rec.qualname}: the shift `{norm_text(k.args[1])[:50]}` mixes two positions")
+            st = _stmt_of(rec.node, k)
+            at = df.cfg.node_of(st).idx
+            found += 1
+            m += 1
+            _check_shift(ctx, rec, df, at, k, None, next(iter(used)), rounders,
+                         f"{rec.qualname}:probe back on the pixel grid")
+        if not found:
+            if cls_name == ANCHOR:
+                raise AnalysisError(f"{rec.qualname}: the probe is not shifted back onto the pixel grid after the "
+                                    "sweep (no fft_shift by the last position found)")
+            ctx.info("R-FRACSHIFT", f"{rec.qualname}:probe back on the pixel grid", rec.where, "no such shift")
+    ctx.require(m >= 1, "R-FRACSHIFT: no shift back onto the pixel grid found in any reconstruct()")
+
+
+def _canon_rounding_src(expr: ast.AST, df, at: int, keep: set) -> str:
+    """Source of `expr` with temporaries inlined (single reaching definitions) and every rounding function spelled
+    `round`; names in `keep` stay as they are."""
+
+    class T(ast.NodeTransformer):
+        def __init__(self, node):
+            self.node = node
+            self.depth = 0
+
+        def visit_Name(self, n: ast.Name):
+            if n.id in keep or self.depth > 12:
+                return n
+            d = df.single_def(self.node, n.id)
+            if d is None or d.kind != "assign" or d.value is None:
+                return n
+            st = df.cfg.nodes[d.node].ast
+            if isinstance(st, ast.Assign) and d.value is st.value and isinstance(st.targets[0], (ast.Tuple, ast.List)):
+                return n
+            sub = T(d.node)
+            sub.depth = self.depth + 1
+            import copy as _copy
+            return sub.visit(_copy.deepcopy(d.value))
+
+        def visit_Call(self, c: ast.Call):
+            c.args = [self.visit(a) for a in c.args]  # (the callee itself is left alone: `xp.round` stays `xp.round`)
+            for kw_ in c.keywords:
+                kw_.value = self.visit(kw_.value)
+            if _short_callee(c) in ROUNDERS and len(c.args) == 1 and not c.keywords:
+                return ast.Call(func=ast.Name(id="round", ctx=ast.Load()), args=c.args, keywords=[])
+            return c
+
+    import copy as _copy
+    return ast.unparse(ast.fix_missing_locations(T(at).visit(_copy.deepcopy(expr))))
+
+
+def _check_shift(ctx, f, df, at, call, new, old, rounders, construct) -> None:
+    """The shift equals frac(new) - frac(old), frac(p) = p - R(p); new=None stands for an on-pixel position."""
+    def _nz():
+        z = CanonNormalizer(df, at)
+        z.no_inline |= {v for v in (new, old) if v}  # the positions themselves stay atoms
+        return z
+
+    got = _nz().norm(call.args[1])
+    used = {a.split("(")[0] for a in got.atoms() if "(" in a}
+    used_r = used & ROUNDERS
+    if not used_r:
+        raise AnalysisError(f"{f.qualname}: the shift `{norm_text(call.args[1])[:60]}` uses no recognised rounding")
+    matches = []
+    frac = lambda v: f"({v} - round({v}))"
+    want = _nz().norm(_parse(f"{frac(new)} - {frac(old)}" if new else f"0 - {frac(old)}"))
+    got_text = _one_rounding(_strip_versions(got))
+    # (terms that differ only in the name of the rounding function are not merged by the normaliser: compare after
+    #  re-normalising the canonical text)
+    if _strip_versions(_nz().norm(_parse(_canon_rounding_src(call.args[1], df, at, {new, old})))) == _strip_versions(want):
+        matches = sorted(used_r)
+    names = {new, old} - {None}
+    idents = set(re.findall(r"[A-Za-z_]\w*", got_text)) - ROUNDERS
+    if not matches and not idents <= names:
+        raise AnalysisError(f"{f.qualname}: cannot classify the shift {_k(got)[:80]}")
+    good = bool(matches) and bool(rounders)
+    why = ""
+    if not matches:
+        why = (f"the probe is shifted by {_strip_versions(got)}; re-positioning it from `{old}` "
+               + (f"to `{new}` needs ({new} - R({new})) - ({old} - R({old}))" if new else
+                  f"back onto the pixel grid needs R({old}) - {old}")
+               + " (R = rounding to the pixel that places the window): the probe ends up displaced by a sub-pixel "
+                 "offset, so the true object and probe are not reproduced")
+    elif not good:
+        why = "the object window is not placed by rounding the position"
+    ctx.check(good, "R-FRACSHIFT", construct, f.loc(call),
+              f"shift {_strip_versions(got)} is the difference of the sub-pixel parts", why, key_detail="frac")
+
+
+def _window_args(ctx, repo) -> None:
+    mod = repo.modules[MOD]
+    wf = repo.function(MOD, WINDOW_FN)
+    wparams = wf.positional_params[:3]
+    n = 0
+    for c in mod.classes.values():
+        for fs in c.methods.values():
+            for f in fs:
+                calls = [k for k in walk_no_nested(f.node) if isinstance(k, ast.Call) and _short_callee(k) == WINDOW_FN]
+                if not calls:
+                    continue
+                ps = f.positional_params
+                if ps and ps[0] in ("self", "cls"):
+                    ps = ps[1:]
+                if len(ps) < 3:
+                    raise AnalysisError(f"{f.qualname}: calls {WINDOW_FN} but has no (objects, probes, position) "
+                                        "parameters")
+                roles = {"array": ps[0], "window": ps[1], "center": ps[2]}
+                df = DataFlow(f.node)
+                for i, k in enumerate(calls):
+                    bound = bind_args_plain(k, wparams)
+                    if set(bound) != set(wparams):
+                        raise AnalysisError(f"{f.qualname}: cannot bind the arguments of {WINDOW_FN}")
+                    at = df.cfg.node_of(_stmt_of(f.node, k)).idx
+                    got = {}
+                    for role, wp in zip(("center", "window", "array"), wparams):
+                        sl = df.backward_slice(at, bound[wp])
+                        got[role] = sl.params & set(roles.values())
+                    bad = [f"the {role} argument `{norm_text(bound[wp])[:40]}` derives from `{sorted(got[role])[0]}`"
+                           for role, wp in zip(("center", "window", "array"), wparams)
+                           if got[role] and roles[role] not in got[role]]
+                    if not bad and any(not got[r] for r in got):
+                        raise AnalysisError(f"{f.qualname}: an argument of {WINDOW_FN} derives from none of "
+                                            f"{sorted(roles.values())}")
+                    n += 1
+                    ctx.check(not bad, "R-WINDOWARGS", f"{f.qualname}:window call {i}", f.loc(k),
+                              f"centre from `{roles['center']}`, window extent from `{roles['window']}`, array extent "
+                              f"from `{roles['array']}`",
+                              "; ".join(bad) + f" — expected centre from `{roles['center']}`, window extent from "
+                              f"`{roles['window']}`, array extent from `{roles['array']}`: the window no longer selects "
+                              "the illuminated part of the object", key_detail="roles")
+    ctx.require(n >= 4, f"R-WINDOWARGS found only {n} calls of {WINDOW_FN}")
+
+
+def bind_args_plain(call: ast.Call, params: list) -> dict:
+    out = {}
+    for p, a in zip(params, call.args):
+        if isinstance(a, ast.Starred):
+            return {}
+        out[p] = a
+    for k in call.keywords:
+        if k.arg is None:
+            return {}
+        out[k.arg] = k.value
+    return out
+
+
+def run(ctx) -> None:  # noqa: F811
+    ctx.rule("R-WINDOW", "_wrapped_indices_2D_window(center, window_shape, array_shape) returns, per axis, "
+             "arange(lo, hi) % m with hi - lo equal to the window extent of that axis, m equal to the array extent of "
+             "that axis and the rounded centre in the middle of [lo, hi) (offset n//2 or (n-1)//2); decided by "
+             "evaluating the integer arithmetic for several extents and centres.  Otherwise the exit wave is formed "
+             "with a part of the object other than the illuminated one and the true object/probe pair is not a fixed "
+             "point")
+    ctx.rule("R-FRACSHIFT", "the probe carried from one scan position to the next is re-positioned by "
+             "(position - R(position)) - (old_position - R(old_position)) in every overlap projection, and by "
+             "R(position) - position after the sweep in reconstruct(), R being the rounding that places the object "
+             "window (term equality modulo ring axioms).  Any other combination leaves the probe displaced by a "
+             "sub-pixel offset: the true object and probe are not reproduced and the reported error is not zero")
+    ctx.rule("R-WINDOWARGS", "every call of the window helper inside an operator method takes its centre from the "
+             "method's position parameter, the window extent from its probes parameter and the array extent from its "
+             "objects parameter (backward slices); permuted roles select a wrong or wrongly sized part of the object")
+    repo = ctx.repo
+    rounders = _window(ctx, repo)
+    _fracshift(ctx, repo, rounders)
+    _window_args(ctx, repo)
+    _inner_run_c28_sweep1(ctx)
+
+
+# ======================================================================================================================
+# second batch: the exit wave is the product object x probe; the sub-pixel offset state of the probe in reconstruct()
+# ======================================================================================================================
+_inner_run_c28_sweep2 = run
+
+_ON_PIXEL_CALLS = {"zeros", "zeros_like"}
+
+
+def _exit_wave_values(f, df):
+    """(value expression, cfg node, statement) of every exit wave an overlap projection returns."""
+    rets = [n for n in walk_no_nested(f.node) if isinstance(n, ast.Return) and n.value is not None]
+    if len(rets) != 1 or not isinstance(rets[0].value, ast.Tuple) or len(rets[0].value.elts) != 2:
+        raise AnalysisError(f"{f.qualname}: expected a single `return probes, exit_waves`")
+    rnode = df.cfg.node_of(rets[0]).idx
+    second = rets[0].value.elts[1]
+    items = list(second.elts) if isinstance(second, ast.Tuple) else [second]
+    out = []
+    for it in items:
+        if isinstance(it, ast.Constant) and it.value is None:
+            continue
+        if not isinstance(it, ast.Name):
+            out.append((it, rnode, rets[0]))
+            continue
+        rd = df.reaching(rnode, it.id)
+        strong = [d for d in rd if d.strong]
+        weak = [d for d in rd if not d.strong]
+        stores = []
+        for d in weak:
+            st = df.cfg.nodes[d.node].ast
+            if isinstance(st, ast.Assign) and isinstance(st.targets[0], ast.Subscript):
+                stores.append((st.value, d.node, st))
+            else:
+                raise AnalysisError(f"{f.qualname}: `{it.id}` is modified by `{norm_text(st)[:50]}`")
+        if stores:
+            # a buffer filled element by element: the strong definition must be an allocation
+            for d in strong:
+                if not (isinstance(d.value, ast.Call) and _short_callee(d.value) in
+                        ("empty_like", "zeros_like", "empty", "zeros")):
+                    raise AnalysisError(f"{f.qualname}: `{it.id}` is both assigned and filled element by element")
+            out += stores
+        else:
+            if len(strong) != 1 or strong[0].kind != "assign" or strong[0].value is None:
+                raise AnalysisError(f"{f.qualname}: exit wave `{it.id}` has no single defining assignment")
+            out.append((strong[0].value, strong[0].node, df.cfg.nodes[strong[0].node].ast))
+    if not out:
+        raise AnalysisError(f"{f.qualname}: no exit wave found")
+    return out
+
+
+def _overlap_product(ctx, repo) -> None:
+    n = 0
+    for c, f in _overlap_methods(repo):
+        ps = f.positional_params
+        objs, probes = ps[0], ps[1]
+        df = DataFlow(f.node)
+        for i, (val, at, st) in enumerate(_exit_wave_values(f, df)):
+            p = CanonNormalizer(df, at).norm(val)
+            sl = df.backward_slice(at, val)
+            if not ({objs, probes} <= sl.params):
+                raise AnalysisError(f"{f.qualname}: exit wave {i} does not derive from both `{objs}` and `{probes}`")
+            n += 1
+            mono = len(p.terms) == 1
+            bad = ""
+            if not mono:
+                bad = f"is the sum {_k(p)[:100]}"
+            else:
+                (m, coef), = p.terms.items()
+                neg = [a for a, e in m if e != 1]
+                if coef != 1 or neg or len(m) < 2:
+                    bad = f"is {_k(p)[:120]}" + (f": `{neg[0][:50]}` does not enter with exponent one" if neg else "")
+            ctx.check(not bad, "R-OVERLAP", f"{f.qualname}:exit wave {i}", f.loc(st),
+                      "a plain product of the illuminated object part(s) and the probe",
+                      f"the exit wave {bad}; the overlap projection is the product object[window] * probe "
+                      "(each factor once): any other combination does not reproduce the measured amplitudes for the "
+                      "true object and probe", key_detail="product")
+    ctx.require(n >= 4, f"R-OVERLAP found only {n} exit waves")
+
+
+def _on_pixel(df, expr: ast.AST, at: int, depth: int = 0) -> bool:
+    """Is the position expression provably a whole-pixel position (rounded, zero, or integer literals)?"""
+    if depth > 8:
+        return False
+    core, rounders = _peel(expr)
+    if rounders:
+        return True
+    if isinstance(core, ast.Constant) and isinstance(core.value, int) and not isinstance(core.value, bool):
+        return True
+    if isinstance(core, (ast.Tuple, ast.List)) and core.elts:
+        return all(_on_pixel(df, e, at, depth + 1) for e in core.elts)
+    if isinstance(core, ast.Call) and _short_callee(core) in _ON_PIXEL_CALLS:
+        return True
+    if isinstance(core, ast.Name):
+        d = df.single_def(at, core.id)
+        if d is not None and d.kind == "assign" and d.value is not None:
+            st = df.cfg.nodes[d.node].ast
+            if not (isinstance(st, ast.Assign) and d.value is st.value and isinstance(st.targets[0], (ast.Tuple, ast.List))):
+                return _on_pixel(df, d.value, d.node, depth + 1)
+    return False
+
+
+def _probe_offset(ctx, repo) -> None:
+    done = 0
+    for cls_name in OPERATORS:
+        rec = repo.method(MOD, cls_name, "reconstruct")
+        alias = _step_aliases(repo, cls_name, rec)
+        ov = [k for k in walk_no_nested(rec.node) if isinstance(k, ast.Call)
+              and alias.get(call_name(k), call_name(k)) == "_overlap_projection"]
+        if len(ov) != 1 or len(ov[0].args) < 4 or not all(isinstance(a, ast.Name) for a in ov[0].args[2:4]):
+            if cls_name == ANCHOR:
+                raise AnalysisError(f"{rec.qualname}: cannot read `_overlap_projection(objects, probes, position, "
+                                    "old_position)`")
+            ctx.info("R-PROBEOFFSET", f"{rec.qualname}", rec.where, "not analysed")
+            continue
+        pv, old = ov[0].args[2].id, ov[0].args[3].id
+        df = DataFlow(rec.node)
+        cfg = df.cfg
+        onode = cfg.node_of(_stmt_of(rec.node, ov[0]))
+        if not onode.loops:
+            raise AnalysisError(f"{rec.qualname}: the overlap projection is not called in a loop")
+        header = onode.loops[-1]
+        body = cfg.loop_body_nodes(header)
+        # (b) the recorded offset follows the position handed to the overlap projection
+        adv = [d.node for d in df.defs if d.var == old and d.strong and d.node in body and isinstance(d.value, ast.Name)
+               and d.value.id == pv]
+        other = [d for d in df.defs if d.var == old and d.strong and d.node in body and d.node not in adv]
+        if other:
+            raise AnalysisError(f"{rec.qualname}: `{old}` is assigned something other than `{pv}` inside the sweep")
+        ctx.check(bool(adv) and all(cfg.dominates(onode.idx, a) for a in adv), "R-PROBEOFFSET",
+                  f"{rec.qualname}:offset advanced", rec.loc(ov[0]),
+                  f"`{old} = {pv}` after the step", f"`{old}` is not set to `{pv}` after the probe has been moved to "
+                  f"`{pv}`: the next overlap projection subtracts a sub-pixel offset the probe does not have",
+                  key_detail="advance")
+        # (a) at the start of a sweep the probe sits on the pixel grid
+        init = [d for d in df.reaching(onode.idx, old) if d.node not in body]
+        if not init or any(d.kind != "assign" or d.value is None for d in init):
+            raise AnalysisError(f"{rec.qualname}: cannot find the initial value of `{old}`")
+        for j, d in enumerate(init):
+            ok = _on_pixel(df, d.value, d.node)
+            ctx.check(ok, "R-PROBEOFFSET", f"{rec.qualname}:initial offset", rec.loc(cfg.nodes[d.node].ast),
+                      f"`{old}` starts as a whole-pixel position",
+                      f"the sweep starts with `{old} = {norm_text(d.value)[:50]}`, which is not a whole-pixel position "
+                      f"(no rounding on its way): the first overlap projection subtracts its fractional part from the "
+                      f"shift although the probe sits on the pixel grid (it has just been shifted back by R(p) - p, or is "
+                      f"the initial probe), so the probe is displaced by that fraction in every sweep and the true "
+                      f"object/probe pair is not a fixed point", key_detail="init")
+        # (c) the shift back onto the pixel grid undoes the offset the probe actually has
+        tails = []
+        for k in [k for k in ast.walk(rec.node) if isinstance(k, ast.Call) and _short_callee(k) == "fft_shift"
+                  and len(k.args) >= 2]:
+            names = {x.id for x in ast.walk(k.args[1]) if isinstance(x, ast.Name)} & {pv, old}
+            st = _stmt_of(rec.node, k)
+            if names and cfg.node_of(st).idx not in body:
+                tails.append((k, st, names))
+        if not tails:
+            if cls_name == ANCHOR:
+                raise AnalysisError(f"{rec.qualname}: no shift back onto the pixel grid after the sweep")
+            continue
+        for k, st, names in tails:
+            tnode = cfg.node_of(st).idx
+            bad = ""
+            if pv in names:
+                for d in df.reaching(tnode, pv):
+                    if d.node in body and cfg.paths_avoiding(d.node, header, set(adv)):
+                        bad = (f"the shift back uses `{pv}`, but a scan position that is read and then skipped "
+                               f"(a path from `{norm_text(cfg.nodes[d.node].ast)[:45]}` to the next turn of the loop "
+                               f"that bypasses `{old} = {pv}`) never moved the probe: when the last visited position is "
+                               f"skipped the probe still carries the offset of `{old}` and is shifted by the wrong "
+                               "amount — the returned probe differs from the true probe")
+                        break
+                    if d.node not in body and d.kind != "param":
+                        raise AnalysisError(f"{rec.qualname}: `{pv}` is also defined outside the sweep")
+            done += 1
+            ctx.check(not bad, "R-PROBEOFFSET", f"{rec.qualname}:shift back uses the recorded offset", rec.loc(k),
+                      "the position in the shift back is the one the probe was last moved to on every path", bad,
+                      key_detail="lastpos")
+    ctx.require(done >= 1, "R-PROBEOFFSET: no reconstruct() analysed")
+
+
+def run(ctx) -> None:  # noqa: F811
+    ctx.rule("R-OVERLAP", "every exit wave returned by an overlap projection normalises to a single product in which "
+             "the probe and the illuminated object part(s) (or their conjugates) each occur with exponent one, and "
+             "depends on both the objects and the probes parameter: psi = O[window] * P")
+    ctx.rule("R-PROBEOFFSET", "reconstruct() keeps the sub-pixel offset of the probe in the variable it passes as "
+             "old_position: (a) its value at the start of a sweep is a whole-pixel position (the probe is on the pixel "
+             "grid then), (b) it is set to the position handed to the overlap projection after every executed step, (c) "
+             "the shift R(p) - p that brings the probe back onto the grid uses a variable that equals the recorded "
+             "offset on every path through the loop, including paths that skip a scan position.  Otherwise the probe "
+             "returned for the true object and probe is a displaced copy of the true probe")
+    repo = ctx.repo
+    _overlap_product(ctx, repo)
+    _inner_run_c28_sweep2(ctx)
+    # last of all: this rule reports two open defects on the unchanged tree, and a standing violation must not turn an
+    # AnalysisError of any other rule into a mere "violations found" outcome
+    _probe_offset(ctx, repo)
+
+
+# ======================================================================================================================
+# third batch: the Fourier projection and its error term in every operator (single wave, forward/reverse pair,
+# incoherent modes, last slice of a multislice stack)
+# ======================================================================================================================
+_inner_run_c28_sweep3 = run
+
+_FOURIER_NAMES = ("_fourier_projection", "_warmup_fourier_projection", "_alternative_fourier_projection")
+
+
+class _NoNewAxis(CanonNormalizer):
+    """CanonNormalizer that reads through `x[None]` (a broadcasting axis does not change the values)."""
+
+    def norm(self, n: ast.AST) -> Poly:
+        if isinstance(n, ast.Subscript) and isinstance(n.slice, ast.Constant) and n.slice.value is None:
+            return self.norm(n.value)
+        return super().norm(n)
+
+
+def _unpack_components(f, names) -> dict:
+    comp = {}
+    for st in walk_no_nested(f.node):
+        if isinstance(st, ast.Assign) and isinstance(st.value, ast.Name) and st.value.id in names \
+                and isinstance(st.targets[0], ast.Tuple) and all(isinstance(e, ast.Name) for e in st.targets[0].elts):
+            comp[st.value.id] = [e.id for e in st.targets[0].elts]
+    return comp
+
+
+def _fourier_general(ctx, repo) -> None:
+    mod = repo.modules[MOD]
+    seen = 0
+    for c in mod.classes.values():
+        for name in _FOURIER_NAMES:
+            f = c.own_method(name)
+            if f is None or not any(isinstance(r, ast.Return) and r.value is not None for r in walk_no_nested(f.node)):
+                continue
+            if c.name == ANCHOR and name == "_fourier_projection":
+                continue  # decided by _projection() above
+            _fourier_one(ctx, f)
+            seen += 1
+    ctx.require(seen >= 3, f"R-PROJECTION: only {seen} further Fourier projections found")
+
+
+def _fourier_one(ctx, f) -> None:
+    ps = f.positional_params
+    if len(ps) < 3:
+        raise AnalysisError(f"{f.qualname}: signature changed")
+    ew, dp, sse = ps[:3]
+    df = DataFlow(f.node)
+    comp = _unpack_components(f, (ew, dp))
+    rets = [n for n in walk_no_nested(f.node) if isinstance(n, ast.Return) and n.value is not None]
+    if len(rets) != 1 or not isinstance(rets[0].value, ast.Tuple) or len(rets[0].value.elts) != 2 \
+            or not isinstance(rets[0].value.elts[1], ast.Name):
+        raise AnalysisError(f"{f.qualname}: expected a single `return modified_exit_waves, sse`")
+    serr = rets[0].value.elts[1].id
+
+    def partner(arg: ast.AST, at: int):
+        """pattern expression text that belongs to the exit-wave expression `arg`, plus its slice (or None)."""
+        hops = 0
+        while isinstance(arg, ast.Name) and arg.id != ew and hops < 6 and not any(arg.id in v for v in comp.values()):
+            d = df.single_def(at, arg.id)
+            if d is None or d.kind != "assign" or d.value is None:
+                return None
+            arg, at = d.value, d.node
+            hops += 1
+        if isinstance(arg, ast.Name) and arg.id == ew:
+            return dp, None
+        if isinstance(arg, ast.Name) and ew in comp and arg.id in comp[ew]:
+            i = comp[ew].index(arg.id)
+            if dp not in comp or len(comp[dp]) != len(comp[ew]):
+                raise AnalysisError(f"{f.qualname}: exit waves are unpacked but the patterns are not")
+            return comp[dp][i], None
+        if isinstance(arg, ast.Subscript) and isinstance(arg.value, ast.Name) and arg.value.id == ew:
+            return dp, arg.slice
+        return None
+
+    ffts = []
+    for k in walk_no_nested(f.node):
+        if isinstance(k, ast.Call) and _short_callee(k) == "fft2" and k.args:
+            at = df.cfg.node_of(_stmt_of(f.node, k)).idx
+            pr = partner(k.args[0], at)
+            if pr is None:
+                raise AnalysisError(f"{f.qualname}: `{norm_text(k)[:50]}` does not transform an exit wave")
+            ffts.append((k, at, pr[0], pr[1]))
+    iffts = [k for k in walk_no_nested(f.node) if isinstance(k, ast.Call) and _short_callee(k) == "ifft2" and k.args]
+    if not ffts or not iffts:
+        raise AnalysisError(f"{f.qualname}: no fft2 / ifft2 pair found")
+    allowed = VOCAB | {ew, dp, "sum", "axis", "axes"} | {x for v in comp.values() for x in v}
+    rewrite: dict = {}
+    matched_waves = set()
+    for i, k in enumerate(iffts):
+        st = _stmt_of(f.node, k)
+        at = df.cfg.node_of(st).idx
+        inner = _NoNewAxis(df, at).norm(k.args[0])
+        hit = None
+        for j, (fk, fat, d_name, sl) in enumerate(ffts):
+            F = ast.unparse(fk)
+            forms = {"phase": f"{d_name} * exp(1j * angle({F}))", "unit": f"{d_name} * {F} / abs({F})",
+                     "modes": f"{d_name} * {F} / sqrt(sum(abs({F}) ** 2, axis=0))"}
+            for form, src in forms.items():
+                if _strip_versions(_NoNewAxis(df, at).norm(_parse(src))) == _strip_versions(inner):
+                    hit = (j, form)
+                    break
+            if hit:
+                break
+        construct = f"{f.qualname}:projected wave {i}"
+        if hit is None:
+            idents = {x for x in re.findall(r"[A-Za-z_]\w*", _strip_versions(inner)) if not re.fullmatch(r"L\d+", x)}
+            if not idents <= allowed:
+                raise AnalysisError(f"{f.qualname}: cannot classify the projected term {_k(inner)[:100]}")
+            ctx.violation("R-PROJECTION", construct, f.loc(k),
+                          f"the projected wave is ifft2({_k(inner)[:140]}); the Fourier projection must be the measured "
+                          "amplitude (exponent one) times the unit-modulus phase of the transformed exit wave of the "
+                          "same component (dp*exp(1j*angle(F)), dp*F/|F|, or dp*F/sqrt(sum_k|F_k|^2) for incoherent "
+                          "modes)", key_detail="form")
+            continue
+        j, form = hit
+        fk, fat, d_name, sl = ffts[j]
+        matched_waves.add(j)
+        same_slot = True
+        if sl is not None:
+            tgt = st.targets[0] if isinstance(st, ast.Assign) else None
+            same_slot = isinstance(tgt, ast.Subscript) and CanonNormalizer(df, at).norm(tgt.slice) == \
+                CanonNormalizer(df, fat).norm(sl)
+        ctx.check(same_slot, "R-PROJECTION", construct, f.loc(k),
+                  f"ifft2({_k(inner)[:90]}) has the form `{form}`",
+                  f"the exit wave is read at [{norm_text(sl) if sl is not None else ''}] but its projection is stored "
+                  f"in another slot (`{norm_text(st)[:50]}`): the update compares different slices", key_detail="slot")
+        z = CanonNormalizer(df, fat)
+        if form == "modes":
+            a = z.norm(_parse(f"sum(abs({ast.unparse(fk)}) ** 2, axis=0)"))
+            tgt_poly = Poly.atom(d_name) * Poly.atom(d_name)
+        else:
+            a = z.norm(_parse(f"abs({ast.unparse(fk)})"))
+            tgt_poly = Poly.atom(d_name)
+        if len(a.terms) != 1 or len(a.atoms()) != 1:
+            raise AnalysisError(f"{f.qualname}: internal: amplitude atom")
+        rewrite[next(iter(a.atoms()))] = tgt_poly
+    for j, (fk, fat, d_name, sl) in enumerate(ffts):
+        if j not in matched_waves and f"{f.qualname}" and not any(
+                i.rule == "R-PROJECTION" and i.verdict == "violation" and i.construct.startswith(f.qualname)
+                for i in ctx.instances):
+            raise AnalysisError(f"{f.qualname}: the transform `{norm_text(fk)[:50]}` is not used by any projection")
+        if j not in matched_waves:  # still let the error term be judged against |F| == dp
+            a = CanonNormalizer(df, fat).norm(_parse(f"abs({ast.unparse(fk)})"))
+            if len(a.atoms()) == 1:
+                rewrite.setdefault(next(iter(a.atoms())), Poly.atom(d_name))
+    # error contributions
+    incs = []
+    for st in walk_no_nested(f.node):
+        if isinstance(st, ast.AugAssign) and isinstance(st.target, ast.Name) and st.target.id == serr:
+            if not isinstance(st.op, (ast.Add, ast.Sub)):
+                raise AnalysisError(f"{f.qualname}: error is not accumulated additively")
+            incs.append((st, st.value, None))
+        elif isinstance(st, ast.Assign) and any(isinstance(t, ast.Name) and t.id == serr for t in st.targets):
+            incs.append((st, st.value, serr))
+    if not incs:
+        raise AnalysisError(f"{f.qualname}: no contribution to the returned error found")
+    for n_i, (st, val, minus) in enumerate(incs):
+        node = df.cfg.node_of(st).idx
+        z = _NoNewAxis(df, node, rewrite=rewrite)
+        z.no_inline.add(serr)
+        p = z.norm(val)
+        if minus:
+            p = p - z.norm(ast.Name(id=minus, ctx=ast.Load()))
+        plain = _NoNewAxis(df, node)
+        plain.no_inline.add(serr)
+        shown = plain.norm(val)
+        depends = any(any(a in atom for a in rewrite) for atom in shown.atoms())
+        ctx.check(p.is_zero() and depends, "R-FIXEDPOINT-ERR", f"{f.qualname}:error contribution {n_i}", f.loc(st),
+                  f"{_k(shown)[:110]} vanishes when the Fourier amplitude equals the measured one",
+                  (f"the error contribution {_k(shown)[:140]} does not vanish when the Fourier amplitude of the exit "
+                   f"wave equals the measured amplitude (residual {_k(p)[:100]}): a perfect reconstruction reports a "
+                   "non-zero error") if not p.is_zero() else
+                  f"the error contribution {_k(shown)[:140]} does not measure the Fourier amplitude of the exit wave",
+                  key_detail="sse")
+
+
+def run(ctx) -> None:  # noqa: F811
+    _fourier_general(ctx, ctx.repo)
+    _inner_run_c28_sweep3(ctx)
+
+
+# ======================================================================================================================
+# fourth batch: the pairing rule for the other operators, and the roles of the values handed to the output stage
+# ======================================================================================================================
+_inner_run_c28_sweep4 = run
+
+_COPIES = {"copy", "deepcopy"}
+
+
+def _origin(df, expr: ast.AST, at: int, depth: int = 0):
+    """The state attribute (`self._x`) a value is a (copy of a) snapshot of; None when it is not a plain snapshot."""
+    if depth > 6:
+        return None
+    while True:
+        if isinstance(expr, ast.Call) and isinstance(expr.func, ast.Attribute) and expr.func.attr in _COPIES \
+                and not expr.args:
+            expr = expr.func.value
+        elif isinstance(expr, ast.Call) and _short_callee(expr) in (_COPIES | _VALUE_PRESERVING) and len(expr.args) == 1:
+            expr = expr.args[0]
+        else:
+            break
+    d = dotted(expr)
+    if d and d.startswith("self.") and d.count(".") == 1:
+        return d
+    if isinstance(expr, ast.Name):
+        rd = df.reaching(at, expr.id)
+        out = set()
+        for x in rd:
+            if x.strong and isinstance(x.value, (ast.List, ast.Tuple)) and not x.value.elts:
+                continue  # the empty list the snapshots are collected in
+            if not x.strong and isinstance(x.value, ast.Call) and isinstance(x.value.func, ast.Attribute) \
+                    and x.value.func.attr == "append" and len(x.value.args) == 1:
+                out.add(_origin(df, x.value.args[0], x.node, depth + 1))
+            elif x.strong and x.kind == "assign" and x.value is not None:
+                out.add(_origin(df, x.value, x.node, depth + 1))
+            else:
+                out.add(None)
+        if len(out) == 1:
+            return next(iter(out))
+    return None
+
+
+def _outputs(ctx, repo) -> None:
+    n = 0
+    for cls_name in OPERATORS:
+        rec = repo.method(MOD, cls_name, "reconstruct")
+        try:
+            _, upd, _, _, (calls, _, _, _) = _pair_params(repo, cls_name)
+            out_f = repo.method(MOD, cls_name, "_prepare_measurement_outputs")
+            df = DataFlow(rec.node)
+            uf, fp = calls["_update_function"][0], calls["_fourier_projection"][0]
+            fparams = repo.method(MOD, cls_name, "_fourier_projection").positional_params
+            src = {}
+            unode = df.cfg.node_of(_stmt_of(rec.node, uf)).idx
+            for p, a in zip(upd.positional_params, uf.args):
+                src[p] = _origin(df, a, unode)
+            fnode = df.cfg.node_of(_stmt_of(rec.node, fp)).idx
+            for p, a in zip(fparams, fp.args):
+                src.setdefault(p, _origin(df, a, fnode))
+            # the overlap projection works on the same state as the update
+            ov = calls["_overlap_projection"][0]
+            oparams_ov = repo.method(MOD, cls_name, "_overlap_projection").positional_params
+            onode = df.cfg.node_of(_stmt_of(rec.node, ov)).idx
+            bad_ov = []
+            for p, a in zip(oparams_ov, ov.args):
+                if src.get(p) and p in upd.positional_params[:2]:
+                    o = _origin(df, a, onode)
+                    if o is not None and o != src[p]:
+                        bad_ov.append(f"`{p}` of the overlap projection receives {o}, the update keeps `{p}` in {src[p]}")
+            ctx.check(not bad_ov, "R-STATEROLES", f"{rec.qualname}:overlap call", rec.loc(ov),
+                      "the overlap projection reads the state the update writes", "; ".join(bad_ov)
+                      + ": object and probe are exchanged between the two steps", key_detail="overlap-roles")
+            oparams = out_f.positional_params[1:]
+            sites = []
+            for k in walk_no_nested(rec.node):
+                if not isinstance(k, ast.Call):
+                    continue
+                if dotted(k.func) == "self._prepare_measurement_outputs":
+                    sites.append((k, list(k.args)))
+                elif _short_callee(k) == "map" and k.args and dotted(k.args[0]) == "self._prepare_measurement_outputs":
+                    sites.append((k, list(k.args[1:])))
+            if not sites:
+                raise AnalysisError(f"{rec.qualname}: no call of _prepare_measurement_outputs")
+            for i, (k, args) in enumerate(sites):
+                at = df.cfg.node_of(_stmt_of(rec.node, k)).idx
+                shared = [(p, a) for p, a in zip(oparams, args) if src.get(p)]
+                if len(shared) < 2:
+                    raise AnalysisError(f"{rec.qualname}: output stage shares fewer than two roles with the update")
+                bad = []
+                for p, a in shared:
+                    o = _origin(df, a, at)
+                    if o is None:
+                        raise AnalysisError(f"{rec.qualname}: cannot trace `{norm_text(a)[:40]}` to a state attribute")
+                    if o != src[p]:
+                        bad.append(f"`{p}` of the output stage receives {o}, but the reconstruction keeps `{p}` in "
+                                   f"{src[p]}")
+                n += 1
+                ctx.check(not bad, "R-STATEROLES", f"{rec.qualname}:output call {i}", rec.loc(k),
+                          "objects / probes / error handed over in their own roles",
+                          "; ".join(bad) + ": the returned estimates are exchanged — for the true object and probe the "
+                          "reported object is not the object", key_detail="roles")
+        except AnalysisError as e:
+            if cls_name == ANCHOR:
+                raise
+            ctx.info("R-STATEROLES", f"{rec.qualname}", rec.where, f"not analysed: {e}")
+    ctx.require(n >= 2, f"R-STATEROLES examined only {n} output calls")
+
+
+def _pairing_others(ctx, repo) -> None:
+    global ANCHOR
+    keep = ANCHOR
+    for cls_name in OPERATORS:
+        if cls_name == keep:
+            continue
+        rec = repo.method(MOD, cls_name, "reconstruct")
+        before = len(ctx.instances)
+        try:
+            ANCHOR = cls_name
+            _pairing(ctx, repo)
+        except AnalysisError as e:
+            ctx.info("R-PAIRING", f"{rec.qualname}", rec.where, f"not analysed beyond this point: {e}")
+        finally:
+            ANCHOR = keep
+
+
+def run(ctx) -> None:  # noqa: F811
+    ctx.rule("R-STATEROLES", "the values reconstruct() hands to _prepare_measurement_outputs (directly or as per-iteration "
+             "snapshots collected in lists) are snapshots of the state attribute that the update step keeps under the "
+             "same interface parameter name (objects, probes) and of the error attribute the Fourier projection "
+             "accumulates (sse), and the overlap projection receives objects / probes from the attributes the update "
+             "writes them to; exchanged roles return the probe as the object")
+    _outputs(ctx, ctx.repo)
+    _pairing_others(ctx, ctx.repo)
+    _inner_run_c28_sweep4(ctx)
+
+
+# ======================================================================================================================
+# fifth batch: R-FACTOR for increments inside a slice loop (first pass of the loop reads the parameters themselves)
+# ======================================================================================================================
+_inner_run_c28_sweep5 = run
+
+
+def _factor_first_pass(ctx, repo) -> None:
+    for cls_name in OPERATORS:
+        try:
+            rec, upd, p_exit, p_mod, _ = _pair_params(repo, cls_name)
+        except AnalysisError:
+            continue  # reported by the inner R-FACTOR
+        df = DataFlow(upd.node)
+        cfg = df.cfg
+        rets = [n for n in walk_no_nested(upd.node) if isinstance(n, ast.Return) and n.value is not None]
+        if len(rets) != 1:
+            continue
+        returned = {n.id for n in ast.walk(rets[0].value) if isinstance(n, ast.Name)}
+        for st in walk_no_nested(upd.node):
+            if not (isinstance(st, ast.AugAssign) and isinstance(st.op, (ast.Add, ast.Sub))):
+                continue
+            root = st.target
+            while isinstance(root, (ast.Subscript, ast.Attribute)):
+                root = root.value
+            node = cfg.node_of(st)
+            if not (isinstance(root, ast.Name) and root.id in returned and node.loops):
+                continue
+            nz = CanonNormalizer(df, node.idx)
+            nz.extra[p_mod] = ast.Name(id=p_exit, ctx=ast.Load())
+            q = nz.norm(st.value)
+            if q.is_zero():
+                continue
+            header = node.loops[-1]
+            body = cfg.loop_body_nodes(header)
+            inside = [d.node for d in df.defs if d.var in (p_exit, p_mod) and d.node in body]
+            # every write to the exit waves inside the loop happens after this increment: the first pass of the loop
+            # evaluates the increment on the parameters themselves
+            if all(cfg.dominates(node.idx, w) and w != node.idx for w in inside):
+                p = CanonNormalizer(df, node.idx).norm(st.value)
+                ctx.violation("R-FACTOR", f"{upd.qualname}:increment of {norm_text(st.target)}", upd.loc(st),
+                              f"in the first pass of the loop the increment `{norm_text(st)[:80]}` ({_k(p)[:120]}) does "
+                              f"not vanish when {p_mod} == {p_exit} (residual {_k(q)[:80]}): with the true object and "
+                              "probe the update still changes the estimate", key_detail="factor")
+
+
+def run(ctx) -> None:  # noqa: F811
+    _factor_first_pass(ctx, ctx.repo)
+    _inner_run_c28_sweep5(ctx)
+
+
+# ======================================================================================================================
+# sixth batch: "to pixels" — a length along axis k becomes a pixel coordinate by division by sampling[k]
+# ======================================================================================================================
+_inner_run_c28_sweep6 = run
+
+
+def _axis_tags(df, e: ast.AST, at: int, skip: str, depth: int = 0) -> set:
+    """Axis indices (0 / 1) the value of `e` is a component of: constant subscripts `v[k]` / `v[:, k]` and positions in
+    the unpacking of a pair, followed through every reaching definition.  Subscripts of `skip` are not counted."""
+    out: set = set()
+    if depth > 8:
+        return out
+    for n in ast.walk(e):
+        if isinstance(n, ast.Subscript):
+            root = n.value
+            if isinstance(root, ast.Name) and root.id == skip:
+                continue
+            sl = n.slice
+            if isinstance(sl, ast.Tuple) and sl.elts:
+                sl = sl.elts[-1]
+            if isinstance(sl, ast.Constant) and sl.value in (0, 1) and not isinstance(sl.value, bool):
+                out.add(sl.value)
+        elif isinstance(n, ast.Name) and isinstance(n.ctx, ast.Load):
+            for d in df.reaching(at, n.id):
+                if d.kind not in ("assign", "aug") or d.value is None or not d.strong:
+                    continue
+                st = df.cfg.nodes[d.node].ast
+                if isinstance(st, ast.Assign) and isinstance(st.targets[0], (ast.Tuple, ast.List)) \
+                        and d.value is st.value and len(st.targets[0].elts) == 2:
+                    names = [t.id if isinstance(t, ast.Name) else None for t in st.targets[0].elts]
+                    if n.id in names and not isinstance(st.value, ast.Call):
+                        out.add(names.index(n.id))
+                        continue
+                    if n.id in names and isinstance(st.value, ast.Call):
+                        # np.meshgrid(u, v) returns the grids in the order of its operands; results of any other
+                        # call carry no axis information
+                        i = names.index(n.id)
+                        if _short_callee(st.value) == "meshgrid" and len(st.value.args) == 2 and d.node != at:
+                            out |= _axis_tags(df, st.value.args[i], d.node, skip, depth + 1)
+                        continue
+                if d.node != at:
+                    out |= _axis_tags(df, d.value, d.node, skip, depth + 1)
+    return out
+
+
+def _samp_component(df, n: ast.AST, at: int, samp: str, depth: int = 0):
+    """k when `n` denotes sampling[k] (directly, through a plain temporary, or by position in `a, b = sampling`)."""
+    if depth > 6:
+        return None
+    if isinstance(n, ast.Subscript) and isinstance(n.value, ast.Name) and n.value.id == samp \
+            and isinstance(n.slice, ast.Constant) and n.slice.value in (0, 1) and not isinstance(n.slice.value, bool):
+        return n.slice.value
+    if isinstance(n, ast.Name) and n.id != samp:
+        d = df.single_def(at, n.id)
+        if d is None or d.kind != "assign" or d.value is None:
+            return None
+        st = df.cfg.nodes[d.node].ast
+        if isinstance(st, ast.Assign) and isinstance(st.targets[0], (ast.Tuple, ast.List)) and d.value is st.value:
+            names = [t.id if isinstance(t, ast.Name) else None for t in st.targets[0].elts]
+            if isinstance(st.value, ast.Name) and st.value.id == samp and len(names) == 2 and n.id in names:
+                return names.index(n.id)
+            return None
+        if isinstance(d.value, (ast.Name, ast.Subscript)):
+            return _samp_component(df, d.value, d.node, samp, depth + 1)
+    return None
+
+
+def _to_pixels(ctx, repo) -> None:
+    f = repo.method(MOD, "AbstractPtychographicOperator", "_calculate_scan_positions_in_pixels")
+    samp = f.positional_params[1]
+    df = DataFlow(f.node)
+    n = 0
+    for st in walk_no_nested(f.node):
+        if not isinstance(st, (ast.Assign, ast.AugAssign)):
+            continue
+        at = df.cfg.node_of(st).idx
+        if isinstance(st, ast.Assign) and (_samp_component(df, st.value, at, samp) is not None or (
+                isinstance(st.value, ast.Name) and st.value.id == samp)):
+            continue  # a temporary for the pixel size itself
+        # outermost references only: `sampling[0]` is one reference, not also a use of `sampling`
+        uses = []
+        stack = [st.value]
+        while stack:
+            x = stack.pop()
+            k = _samp_component(df, x, at, samp) if isinstance(x, (ast.Name, ast.Subscript)) else None
+            if k is not None:
+                uses.append((x, k))
+                continue
+            if isinstance(x, ast.Name) and x.id == samp:
+                raise AnalysisError(f"{f.qualname}: `{samp}` is used as a whole in `{norm_text(st)[:50]}`")
+            stack.extend(ast.iter_child_nodes(x))
+        if not uses:
+            continue
+        ks = {k for _, k in uses}
+        if len(ks) != 1:
+            raise AnalysisError(f"{f.qualname}: two sampling components in `{norm_text(st)[:50]}`")
+        k = next(iter(ks))
+        marker = "pixel𝑠ize"
+        nz = CanonNormalizer(df, at)
+        for x, _ in uses:
+            if isinstance(x, ast.Name):
+                nz.extra[x.id] = ast.Name(id=marker, ctx=ast.Load())
+        # subscript references are replaced in a copy of the expression
+        import copy as _copy
+
+        class _Sub(ast.NodeTransformer):
+            def visit_Subscript(self, node):
+                if isinstance(node.value, ast.Name) and node.value.id == samp:
+                    return ast.Name(id=marker, ctx=ast.Load())
+                return self.generic_visit(node)
+
+        p = nz.norm(_Sub().visit(_copy.deepcopy(st.value)))
+        degs = {sum(e for a, e in m if a == marker) for m in p.terms}
+        skip_names = {x.id for x, _ in uses if isinstance(x, ast.Name)}
+        tags = _axis_tags(df, _strip_names(st.value, skip_names), at, samp)
+        n += 1
+        bad = ""
+        if degs != {-1}:
+            bad = (f"`{norm_text(st)[:70]}` does not divide every term by {samp}[{k}] (degrees {sorted(map(str, degs))}): "
+                   "a length in Å becomes a pixel coordinate by division by the pixel size")
+        elif tags - {k}:
+            bad = (f"`{norm_text(st)[:70]}` converts a coordinate of axis {sorted(tags - {k})[0]} with the pixel size of "
+                   f"axis {k}")
+        ctx.check(not bad, "R-PIXELS", f"{f.qualname}:axis {k}", f.loc(st),
+                  f"coordinate of axis {k} divided by {samp}[{k}]", bad + " — for anisotropic sampling the scan positions "
+                  "land on the wrong object pixels and the true object/probe pair is not a fixed point", key_detail="px")
+    ctx.require(n >= 2, f"{f.qualname}: fewer than two conversions by the sampling found")
+
+
+def _strip_names(e: ast.AST, names: set) -> ast.AST:
+    import copy as _copy
+
+    class _T(ast.NodeTransformer):
+        def visit_Name(self, node):
+            return ast.Constant(value=1) if node.id in names else node
+
+    return _T().visit(_copy.deepcopy(e))
+
+
+def run(ctx) -> None:  # noqa: F811
+    ctx.rule("R-PIXELS", "in _calculate_scan_positions_in_pixels every statement that uses sampling[k] divides each of its "
+             "terms by sampling[k] exactly once (Laurent degree -1), and the coordinates it converts are components of "
+             "axis k only (constant subscripts / unpacking positions followed through all reaching definitions)")
+    _to_pixels(ctx, ctx.repo)
+    _inner_run_c28_sweep6(ctx)
